@@ -819,7 +819,14 @@ impl Interp {
         }
 
         // NEXT, evaluate the script and translate the result to Ok or Error
-        let mut result = self.eval_script(&*value.as_script()?);
+        let script = match value.as_script() {
+            Ok(script) => script,
+            Err(exception) => {
+                self.num_levels -= 1;
+                return Err(exception);
+            }
+        };
+        let mut result = self.eval_script(&*script);
 
         // NEXT, decrement the number of nesting levels.
         self.num_levels -= 1;
